@@ -80,6 +80,11 @@ func NewRouter(doc *openapi3.T) (routers.Router, error) {
 			}
 			if host := s.host; host != "" {
 				muxRoute.Host(host)
+				if !hostHasPort(host) {
+					// gorilla/mux ignores the request's port when the host template has none: a server
+					// declared without a port is the one at the scheme's default port, not at any port
+					muxRoute.MatcherFunc(requestOnDefaultPort)
+				}
 			}
 			if err := muxRoute.GetError(); err != nil {
 				return nil, err
@@ -131,6 +136,33 @@ func (r *Router) FindRoute(req *http.Request) (*routers.Route, map[string]string
 		return nil, nil, routers.ErrMethodNotAllowed
 	}
 	return nil, nil, routers.ErrPathNotFound
+}
+
+func hostHasPort(host string) bool {
+	return strings.LastIndexByte(host, ':') > strings.LastIndexByte(host, ']')
+}
+
+// requestOnDefaultPort tells whether the request names no port or the default port of its scheme.
+func requestOnDefaultPort(req *http.Request, _ *mux.RouteMatch) bool {
+	host, scheme := req.Host, ""
+	if req.URL.IsAbs() {
+		host, scheme = req.URL.Host, req.URL.Scheme
+	} else if req.TLS != nil {
+		scheme = "https"
+	}
+	if !hostHasPort(host) {
+		return true
+	}
+	switch port := host[strings.LastIndexByte(host, ':')+1:]; port {
+	case "":
+		return true
+	case "80":
+		return scheme != "https"
+	case "443":
+		return scheme != "http"
+	default:
+		return false
+	}
 }
 
 func makeServers(in openapi3.Servers) ([]srv, error) {
